@@ -491,6 +491,25 @@ def gen_config(rng, tbl, max_ctx=4, max_tests=3, window_layout=None, fault_kinds
                 continue
             c["entries"].insert(rng.randint(0, len(c["entries"])), e)
             nf += 1
+    if fault_kinds and max_faults and rng.chance(0.08):
+        # a storm: a dozen entries of one fault kind in one run (log throttles, counters and caches see many of them)
+        kind = rng.pick(list(fault_kinds))
+        for k in range(rng.randint(11, 16)):
+            c = rng.pick(contexts)
+            sid = rng.pick(sids)
+            if kind == "F5":
+                e = gen_healthy_entry(rng, f"ghost{k}", tbl)
+                e["role"] = "F5"
+            elif kind == "F1":
+                e = {"sid": sid, "module": f"nosuchpkg{k}", "test": "gross_range_test", "params": {"fail_span": [0, 1]}, "role": "F1"}
+            elif kind == "F2":
+                e = {"sid": sid, "module": rng.pick(("qartod", "argo", "axds")), "test": f"no_such_test_{k}", "params": {"threshold": 1}, "role": "F2"}
+            else:
+                taken = {(x["module"], x["test"]) for x in c["entries"] if x["sid"] == sid}
+                e = gen_fault_entry(rng, kind, sid, tbl, exclude=taken)
+            if e is None or any((x["sid"], x["module"], x["test"]) == (e["sid"], e["module"], e["test"]) for x in c["entries"]):
+                continue
+            c["entries"].insert(rng.randint(0, len(c["entries"])), e)
     if len(contexts) >= 2 and rng.chance(0.08) and not tbl.get("no_time"):
         # the same window again, later in the list, with other tests: Config treats both as one Context
         src = rng.pick(contexts[:-1])
